@@ -44,6 +44,7 @@ type UConn struct {
 	Outstanding int    // requests received and not answered
 	Reqs        []*UReq
 	Garbage     string // bytes that did not parse as a request
+	HbAcks      int    // bolt: heartbeat acknowledgements received (see SyncBolt in binding.go)
 	wmu         sync.Mutex
 }
 
@@ -312,8 +313,16 @@ func (u *Upstream) acceptLoop(ln net.Listener) {
 				}
 			}
 			u.changed()
+			self := uc.SelfClosed
 			u.mu.Unlock()
-			_ = c.Close()
+			if self {
+				_ = c.Close()
+			} else {
+				// the peer closed first: answer its FIN with a reset, its socket then skips TIME_WAIT (pools that
+				// close most of their connections themselves - binding pool - would otherwise exhaust the
+				// ephemeral ports of the shared machine within one thorough run)
+				rst(c)
+			}
 		}()
 	}
 }
@@ -386,6 +395,11 @@ func (u *Upstream) serveBolt(uc *UConn) error {
 			}
 			if f.CmdCode == 0 && f.CmdType != 0 { // heartbeat: acknowledge, not a request of the history
 				uc.write(codec.BuildBolt(codec.BoltFields{Ver1: 1, CmdType: 0, CmdCode: 0, Ver2: 1, ID: f.ID, Codec: 1}, nil, nil, nil))
+			} else if f.CmdCode == 0 { // heartbeat acknowledgement: the peer has handled every frame written before the heartbeat
+				u.mu.Lock()
+				uc.HbAcks++
+				u.changed()
+				u.mu.Unlock()
 			} else if f.CmdType != 0 {
 				tok := ""
 				if kvs, herr := codec.ParseHeaderBlock(hdr); herr == nil {
@@ -558,7 +572,7 @@ func (u *Upstream) Conn(id int) *UConn {
 
 func snapshot(uc *UConn) *UConn {
 	return &UConn{ID: uc.ID, Refused: uc.Refused, PeerClosed: uc.PeerClosed, PeerErr: uc.PeerErr, SelfClosed: uc.SelfClosed,
-		Outstanding: uc.Outstanding, Reqs: append([]*UReq(nil), uc.Reqs...), Garbage: uc.Garbage}
+		Outstanding: uc.Outstanding, Reqs: append([]*UReq(nil), uc.Reqs...), Garbage: uc.Garbage, HbAcks: uc.HbAcks}
 }
 
 // Conns returns snapshots of all accepted connections in accept order.
